@@ -749,6 +749,21 @@ class VSerial(VBase):
 
 
 CLASSES["VSerial"] = VSerial
+
+
+@dataclass(frozen=True)
+class VDerived(VBase):
+    """A CHILD field that is no constructor argument: the class derives it itself (a resolved target)."""
+
+    name: str = ""
+    target: VBase | None = field(default=None, init=False)
+
+    def __post_init__(self) -> None:
+        object.__setattr__(self, "target", VLeaf(v=len(self.name)))
+        super().__post_init__()
+
+
+CLASSES["VDerived"] = VDerived
 CLASSES["VSlot"] = VSlot
 CLASSES["VBin"] = VBin
 CLASSES["VValidated"] = VValidated
